@@ -206,7 +206,8 @@ struct AdaptedCb
 	void operator() (PayloadView w) const { regUse(&inner); Payload copy(w.uid, w.v, 0); onListener(inner.id, 0, copy); }
 	void operator() (const Key & k, PayloadView w) const { regUse(&inner); Payload copy(w.uid, w.v, 0); onListener(inner.id, keyToInt(k), copy); }
 };
-struct EvenCond { bool operator() (const Payload & p) const { return p.v % 2 == 0; } bool operator() (const Key &, const Payload & p) const { return p.v % 2 == 0; } };
+// (takes the argument the way the prototype does - by value in the by-value worlds, so that a wrapper handing it an rvalue would move the dispatch's argument away)
+struct EvenCond { bool operator() (ArgT p) const { return p.v % 2 == 0; } bool operator() (const Key &, ArgT p) const { return p.v % 2 == 0; } };
 struct Pred
 {
 	bool operator() (ArgT p) const { return onPredicate(p); }
